@@ -84,7 +84,32 @@ func (c CallIn) text() string {
 // block type is the implementation's px.IsInstance(Callable[...], lambda) (Callable assignability is
 // modelled rather than verified here: it is an oracle table `btab` in the cases files).
 var blockTypes = []string{"Callable", "Callable[0,0]", "Callable[1,1]", "Callable[Integer]", "Callable[Numeric]",
-	"Callable[Integer[0,5]]", "Callable[String,Integer]", "Callable[1,2]", "Callable[Any]"}
+	"Callable[Integer[0,5]]", "Callable[String,Integer]", "Callable[1,2]", "Callable[Any]",
+	// block types that accept a missing block (undef) or every block without being declared with OptionalBlock:
+	// a literal Optional[..], Variant[Undef, ..], Any, Undef
+	"Optional[Callable[1,1]]", "Optional[Callable[Integer]]", "Variant[Undef,Callable[1,1]]", "Variant[Callable[0,0],Callable[Integer]]",
+	"Any", "Undef",
+	// local type aliases (declared as local types of the function that uses them, see blockAliasDecls)
+	"Handler", "IntCb", "MaybeCb", "Optional[IntCb]", "Variant[Handler,IntCb]"}
+
+// firstAliasBlock: index of the first block type that needs the local block aliases
+const firstAliasBlock = 15
+
+// blockAliasDecls are the local types a function declares when one of its dispatches names an alias block type.
+var blockAliasDecls = [][2]string{{"Handler", "Optional[Callable[1,1]]"}, {"IntCb", "Callable[Integer]"},
+	{"MaybeCb", "Variant[Undef,Callable[Integer]]"}}
+
+func isAliasBlock(b int) bool { return b >= firstAliasBlock }
+
+// blockTypeExpanded is the block type with the aliases replaced by their definitions (the harness' own,
+// independent alias resolution; used for the oracle tables).
+func blockTypeExpanded(b int) string {
+	t := blockTypes[b]
+	for _, a := range blockAliasDecls {
+		t = strings.ReplaceAll(t, a[0], a[1])
+	}
+	return t
+}
 
 var blockLambdaDecls = [][]Op{
 	{},
@@ -106,6 +131,7 @@ type env struct {
 	lambdas []px.Lambda
 	btypes  []px.Type
 	binst   [][]bool // binst[bt][blk] = px.IsInstance(blockTypes[bt], lambda blk)
+	bundef  []bool   // bundef[bt] = px.IsInstance(blockTypes[bt], undef): the declared type accepts a missing block
 	tcache  map[string]px.Type
 }
 
@@ -121,30 +147,36 @@ func newEnv(c px.Context) *env {
 		}}).Resolve(c)
 		e.lambdas = append(e.lambdas, f.Dispatchers()[0])
 	}
-	for _, s := range blockTypes {
-		e.btypes = append(e.btypes, c.ParseType(s))
+	for i := range blockTypes {
+		e.btypes = append(e.btypes, c.ParseType(blockTypeExpanded(i)))
 	}
 	e.binst = make([][]bool, len(blockTypes))
+	e.bundef = make([]bool, len(blockTypes))
 	for i, bt := range e.btypes {
 		e.binst[i] = make([]bool, len(e.lambdas))
 		for j, l := range e.lambdas {
 			e.binst[i][j], _ = isInst(bt, l)
 		}
+		e.bundef[i], _ = isInst(bt, px.Undef)
 	}
 	return e
 }
 
-// btabGallina is the oracle table: the pairs (block type id, block id) that satisfy.
+// btabGallina is the oracle table: the pairs (block type id, Some block id) that satisfy, and (block type id, None)
+// for the block types that accept undef (a missing block).
 func (e *env) btabGallina() string {
 	ps := []string{}
 	for i := range e.binst {
 		for j := range e.binst[i] {
 			if e.binst[i][j] {
-				ps = append(ps, fmt.Sprintf("(%d%%N,%d%%N)", i, j))
+				ps = append(ps, fmt.Sprintf("(%d%%N,Some %d%%N)", i, j))
 			}
 		}
+		if e.bundef[i] {
+			ps = append(ps, fmt.Sprintf("(%d%%N,None)", i))
+		}
 	}
-	return "Definition btab : list (N * N) := " + lib.GList(ps, "N * N") + ".\n"
+	return "Definition btab : list (N * option N) := " + lib.GList(ps, "N * option N") + ".\n"
 }
 
 func (e *env) parse(s string) px.Type {
@@ -184,13 +216,13 @@ func applyOp(e *env, d px.Dispatch, o Op, bodies *bodyRec) {
 			d.RequiredRepeatedParam(o.T.Src(nil))
 		}
 	case "Block":
-		if o.Typed {
+		if o.Typed && !isAliasBlock(o.B) {
 			d.Block2(e.btypes[o.B])
 		} else {
 			d.Block(blockTypes[o.B])
 		}
 	case "OptBlock":
-		if o.Typed {
+		if o.Typed && !isAliasBlock(o.B) {
 			d.OptionalBlock2(e.btypes[o.B])
 		} else {
 			d.OptionalBlock(blockTypes[o.B])
@@ -377,7 +409,8 @@ func (e *env) matchesBlock(d decl, blk int) bool {
 	}
 	for _, r := range d.blocks {
 		if blk < 0 {
-			if !r.optional {
+			// no block: fine for an optional block and for a declared block type that accepts undef
+			if !r.optional && !e.bundef[r.bt] {
 				return false
 			}
 		} else if !e.binst[r.bt][blk] {
@@ -472,13 +505,18 @@ func (e *env) instFor(aliases []Alias) func(t *PTy, v px.Value) bool {
 	for _, a := range aliases {
 		expand[a.Name] = a.T
 	}
-	return func(t *PTy, v px.Value) bool {
-		r, _ := isInst(e.parse(t.Src(expand)), v)
+	return func(t *PTy, v px.Value) (r bool) {
+		defer func() {
+			if recover() != nil { // a type expression that does not parse (generated on purpose) has no instances
+				r = false
+			}
+		}()
+		r, _ = isInst(e.parse(t.Src(expand)), v)
 		return r
 	}
 }
 
-func (e *env) runFn(fc *FnCase) *fnRun {
+func (e *env) runFn(fc *FnCase, ctx px.Context) *fnRun {
 	run := &fnRun{insts: e.instFor(fc.Aliases)}
 	for _, ops := range fc.Disps {
 		run.decls = append(run.decls, declOf(ops))
@@ -497,10 +535,16 @@ func (e *env) runFn(fc *FnCase) *fnRun {
 		}
 	}
 	var lt px.LocalTypesCreator
-	if len(fc.Aliases) > 0 {
+	blkAliases := fc.usesAliasBlock()
+	if len(fc.Aliases) > 0 || blkAliases {
 		lt = func(l px.LocalTypes) {
+			if blkAliases {
+				for _, a := range blockAliasDecls {
+					l.Type(a[0], a[1])
+				}
+			}
 			for _, a := range fc.Aliases {
-				if a.Typed && !a.T.hasRef() {
+				if a.Typed && !a.T.hasRef() && !a.T.bad() {
 					l.Type2(a.Name, e.parse(a.T.Src(nil)))
 				} else {
 					l.Type(a.Name, a.T.Src(nil))
@@ -516,9 +560,9 @@ func (e *env) runFn(fc *FnCase) *fnRun {
 		return run
 	}
 	var f px.Function
-	ro := guard(func() px.Value { f = rf.Resolve(e.c); return nil })
+	ro := guard(func() px.Value { f = rf.Resolve(ctx); return nil })
 	if ro.Class != "ok" {
-		run.obs = FnObs{Build: "resolve", BuildAt: 0, Msg: ro.Msg}
+		run.obs = FnObs{Build: "resolve", BuildAt: 0, Msg: ro.Class + " " + ro.Code + " " + ro.Msg}
 		return run
 	}
 	run.obs.Build = "ok"
@@ -529,7 +573,7 @@ func (e *env) runFn(fc *FnCase) *fnRun {
 			blk = e.lambdas[call.Blk]
 		}
 		ran = ran[:0]
-		o := guard(func() px.Value { return f.Call(e.c, blk, args...) })
+		o := guard(func() px.Value { return f.Call(ctx, blk, args...) })
 		var co CallObs
 		bv := ""
 		switch {
@@ -643,10 +687,47 @@ func (fc *FnCase) gallina(obs FnObs) string {
 
 // ---- direct check D on one function case --------------------------------------------------------------
 
-// checkFn runs the case, evaluates the property directly, records violations.  Returns the run.
+// usesAliasBlock: some dispatch names a block type that is a local alias
+func (fc *FnCase) usesAliasBlock() bool {
+	for _, ops := range fc.Disps {
+		for _, o := range ops {
+			if (o.K == "Block" || o.K == "OptBlock") && isAliasBlock(o.B) {
+				return true
+			}
+		}
+	}
+	return false
+}
+
+// hasBadType: a local type or a parameter type is an expression that does not resolve (Integer[9,0], ...);
+// Resolve is then expected to raise a reported error, about which the property says nothing.
+func (fc *FnCase) hasBadType() bool {
+	for _, a := range fc.Aliases {
+		if a.T.bad() {
+			return true
+		}
+	}
+	for _, ops := range fc.Disps {
+		for _, o := range ops {
+			if isParamOp(o.K) && o.T.bad() {
+				return true
+			}
+		}
+	}
+	return false
+}
+
+// checkFn runs the case in the harness' main context, evaluates the property directly, records violations.
 func (e *env) checkFn(res *lib.Result, fc *FnCase) *fnRun {
-	run := e.runFn(fc)
+	return e.checkFnIn(res, fc, e.c, func(one *FnCase) interface{} { return one }, nil)
+}
+
+// checkFnIn runs the case in ctx.  wrap turns the (reduced) failing case into the replayable input - for a
+// function that is part of a history, the history up to and including it.
+func (e *env) checkFnIn(res *lib.Result, fc *FnCase, ctx px.Context, wrap func(one *FnCase) interface{}, tags []string) *fnRun {
+	run := e.runFn(fc, ctx)
 	allWf := true
+	badType := fc.hasBadType()
 	for i, d := range run.decls {
 		wf, why := d.wellFormed()
 		if wf != "yes" {
@@ -656,22 +737,22 @@ func (e *env) checkFn(res *lib.Result, fc *FnCase) *fnRun {
 			res.Violate(lib.Violation{Clause: "illformed-declaration-accepted",
 				What: fmt.Sprintf("the builder accepted dispatch %d {%s} although it is ill-formed (%s): no declaration the body could be checked against",
 					i, opsText(fc.Disps[i]), why),
-				Input: &FnCase{Kind: "dispatch", Aliases: fc.Aliases, Disps: fc.Disps, Calls: nil}, Tags: []string{"builder", why}})
+				Input: wrap(&FnCase{Kind: "dispatch", Aliases: fc.Aliases, Disps: fc.Disps, Calls: nil}), Tags: append([]string{"builder", why}, tags...)})
 		}
-		if wf == "yes" && run.obs.Build != "ok" && run.obs.BuildAt == i {
+		if wf == "yes" && run.obs.Build != "ok" && run.obs.BuildAt == i && !(badType && run.obs.Build == "resolve") {
 			res.Violate(lib.Violation{Clause: "wellformed-declaration-rejected",
 				What: fmt.Sprintf("the builder rejected the well-formed dispatch %d {%s}: %s %s", i, opsText(fc.Disps[i]), run.obs.Build, run.obs.Msg),
-				Input: &FnCase{Kind: "dispatch", Aliases: fc.Aliases, Disps: fc.Disps, Calls: nil}, Tags: []string{"builder", "rejected-" + run.obs.Build}})
+				Input: wrap(&FnCase{Kind: "dispatch", Aliases: fc.Aliases, Disps: fc.Disps, Calls: nil}), Tags: append([]string{"builder", "rejected-" + run.obs.Build}, tags...)})
 		}
 	}
 	if run.obs.Build != "ok" {
 		return run
 	}
 	for k, call := range fc.Calls {
-		one := &FnCase{Kind: "dispatch", Aliases: fc.Aliases, Disps: fc.Disps, Calls: []CallIn{call}}
+		one := wrap(&FnCase{Kind: "dispatch", Aliases: fc.Aliases, Disps: fc.Disps, Calls: []CallIn{call}})
 		co := run.obs.Calls[k]
 		if bv := run.bodyViol[k]; bv != "" {
-			res.Violate(lib.Violation{Clause: "body-outside-declaration", What: bv, Input: one, Tags: []string{"call"}})
+			res.Violate(lib.Violation{Clause: "body-outside-declaration", What: fc.text() + " call " + call.text() + ": " + bv, Input: one, Tags: append([]string{"call"}, tags...)})
 		}
 		if !allWf {
 			continue
@@ -681,18 +762,67 @@ func (e *env) checkFn(res *lib.Result, fc *FnCase) *fnRun {
 		case exp >= 0 && !(co.Class == "body" && co.Body == exp):
 			res.Violate(lib.Violation{Clause: "first-matching-dispatch",
 				What: fmt.Sprintf("%s call %s: the first dispatch whose declaration is satisfied is %d, but: %s", fc.text(), call.text(), exp, co),
-				Input: one, Tags: []string{"call"}})
+				Input: one, Tags: append([]string{"call"}, tags...)})
 		case exp < 0 && co.Class == "body":
 			if run.bodyViol[k] == "" {
 				res.Violate(lib.Violation{Clause: "first-matching-dispatch",
 					What: fmt.Sprintf("%s call %s: no declaration is satisfied, but: %s", fc.text(), call.text(), co),
-					Input: one, Tags: []string{"call"}})
+					Input: one, Tags: append([]string{"call"}, tags...)})
 			}
 		case exp < 0 && co.Class != "argerror":
 			res.Violate(lib.Violation{Clause: "no-match-is-reported-argument-error",
 				What: fmt.Sprintf("%s call %s: no dispatch matches; expected a reported argument error, got: %s", fc.text(), call.text(), co),
-				Input: one, Tags: []string{"call", "error-" + co.Class}})
+				Input: one, Tags: append([]string{"call", "error-" + co.Class}, tags...)})
 		}
 	}
 	return run
+}
+
+// ---- histories: functions built, resolved and called one after the other in ONE context ---------------------
+
+// History is a sequence of functions handled in the same (fresh, forked) context.  A Resolve that raises is
+// recovered (by guard) and the context goes on being used, as a caller that handles the reported error would.
+type History struct {
+	Kind string    `json:"kind"` // "history"
+	Fns  []*FnCase `json:"fns"`
+}
+
+func (h *History) text() string {
+	ss := make([]string, len(h.Fns))
+	for i, f := range h.Fns {
+		ss[i] = fmt.Sprintf("function %d: %s", i, f.text())
+	}
+	return strings.Join(ss, " || ")
+}
+
+// checkHistory runs D on every function of the history: each is held to its OWN declaration (its own local
+// types), whatever was built, resolved or failed before it in the context.
+func (e *env) checkHistory(res *lib.Result, h *History) []*fnRun {
+	ctx := e.c.Fork()
+	runs := make([]*fnRun, len(h.Fns))
+	for i, fc := range h.Fns {
+		i := i
+		wrap := func(one *FnCase) interface{} {
+			// the functions before i without their calls (what matters is that they were resolved), then the failing one
+			fns := make([]*FnCase, 0, i+1)
+			for _, p := range h.Fns[:i] {
+				fns = append(fns, &FnCase{Kind: "dispatch", Aliases: p.Aliases, Disps: p.Disps})
+			}
+			return &History{Kind: "history", Fns: append(fns, one)}
+		}
+		tags := []string{"history"}
+		if i > 0 {
+			tags = append(tags, "after-earlier-function")
+		}
+		runs[i] = e.checkFnIn(res, fc, ctx, wrap, tags)
+	}
+	return runs
+}
+
+func (h *History) gallina(runs []*fnRun) string {
+	fs := make([]string, len(h.Fns))
+	for i, f := range h.Fns {
+		fs[i] = f.gallina(runs[i].obs)
+	}
+	return lib.GList(fs, "fncase")
 }
